@@ -165,17 +165,20 @@ def ClientLimiter.allowN (cl : ClientLimiter) (addr : Addr) (now n : Nat) : Bool
 def gcRequiresFull : Bool := true
 
 /-- `gc` at wall-clock `now`: an entry is deleted iff `lastSeen.Before(now - entryTtl)` and
-    (when `requiresFull`) the bucket is full at `now`. -/
-def ClientLimiter.gcWith (requiresFull : Bool) (cl : ClientLimiter) (now : Nat) : ClientLimiter :=
+    (when `requiresFull`) the bucket is full at `now`.  `only = some k` restricts the pass to the
+    entry of key `k` (one iteration of gc's `Range` callback, which is one locked region);
+    `only = none` is a whole pass. -/
+def ClientLimiter.gcWith (requiresFull : Bool) (cl : ClientLimiter) (now : Nat) (only : Option Addr) : ClientLimiter :=
   { cl with m := fun k =>
       match cl.m k with
       | some e =>
-        if e.lastSeen + entryTtl < now ∧
+        if (only = none ∨ only = some k) ∧ e.lastSeen + entryTtl < now ∧
             (requiresFull = false ∨ ((cl.burst * nano : Nat) : Int) ≤ e.b.avail cl.limit cl.burst now)
         then none else some e
       | none => none }
 
-def ClientLimiter.gc (cl : ClientLimiter) (now : Nat) : ClientLimiter := cl.gcWith gcRequiresFull now
+def ClientLimiter.gc (cl : ClientLimiter) (now : Nat) (only : Option Addr := none) : ClientLimiter :=
+  cl.gcWith gcRequiresFull now only
 
 /-- one arrival: address, time (ns), cost -/
 structure Ev where
@@ -194,19 +197,19 @@ def ClientLimiter.run (cl : ClientLimiter) : List Ev → List Bool
 /-- histories with garbage collections in between -/
 inductive Op where
   | allow (e : Ev)
-  | gc (now : Nat)
+  | gc (now : Nat) (only : Option Addr := none)
   deriving DecidableEq, Repr
 
 def Op.time : Op → Nat
   | .allow e => e.t
-  | .gc now => now
+  | .gc now _ => now
 
 def ClientLimiter.runOpsWith (requiresFull : Bool) (cl : ClientLimiter) : List Op → List Bool
   | [] => []
   | .allow e :: os =>
     let r := cl.allowN e.addr e.t e.n
     r.1 :: ClientLimiter.runOpsWith requiresFull r.2 os
-  | .gc now :: os => ClientLimiter.runOpsWith requiresFull (cl.gcWith requiresFull now) os
+  | .gc now only :: os => ClientLimiter.runOpsWith requiresFull (cl.gcWith requiresFull now only) os
 
 def ClientLimiter.runOps (cl : ClientLimiter) (os : List Op) : List Bool := cl.runOpsWith gcRequiresFull os
 
@@ -214,7 +217,7 @@ def ClientLimiter.runOps (cl : ClientLimiter) (os : List Op) : List Bool := cl.r
 def Op.evs : List Op → List Ev
   | [] => []
   | .allow e :: os => e :: Op.evs os
-  | .gc _ :: os => Op.evs os
+  | .gc _ _ :: os => Op.evs os
 
 /-! ## `resourceLimiter` (app/router/limiter.go) -/
 
@@ -497,7 +500,7 @@ def addrOfStr (s : String) : Option Addr :=
 
 def opOfStr (s : String) : Option Op :=
   match s.splitOn "/" with
-  | ["gc", t] => (natOfStr t).map .gc
+  | ["gc", t] => (natOfStr t).map (.gc · none)
   | [a, t, n] => do
     let a ← addrOfStr a
     let t ← natOfStr t
@@ -538,8 +541,8 @@ def ClientLimiter.len (cl : ClientLimiter) (ks : List Addr) : Nat :=
     `ks` = the keys that were ever used. -/
 def follow (exact : Bool) (cl : ClientLimiter) (ks : List Addr) : List Op → List Bool → List Bool × List Nat
   | [], _ => ([], [])
-  | .gc now :: os, obs =>
-    let cl' := cl.gc now
+  | .gc now only :: os, obs =>
+    let cl' := cl.gc now only
     let r := follow exact cl' ks os obs
     (r.1, cl'.len ks :: r.2)
   | .allow e :: os, obs =>
